@@ -41,54 +41,75 @@ MAX_DEPTH = 3
 
 
 # ----------------------------------------------------------------------------- strategy
+# (strategies are built once: constructing them inside the composites dominates generation time otherwise)
 _tri = st.sampled_from([None, None, 0, 1])
+_i01 = st.integers(0, 1)
+_i03 = st.integers(0, 3)
+_i04 = st.integers(0, 4)
+_i05 = st.integers(0, 5)
+_i09 = st.integers(0, 9)
+_names = st.lists(st.sampled_from(NAME_POOL), unique=True, min_size=0, max_size=4)
+_item_t = st.sampled_from(["f", "f", "f", "f", "f", "iv", "cv", "u", "prop", "meth"])
+_types = st.integers(0, len(TYPES) - 1)
+_plain = st.integers(0, len(PLAIN_DEFAULTS) - 1)
+_dkind = st.sampled_from([None, "v", "f"])
+_dkind_nofactory = st.sampled_from([None, "v"])
+_sigs = st.integers(0, len(INIT_SIGS) - 1)
+_deco_init = st.sampled_from([None, None, None, 1, 0])
+_extra = st.sampled_from(EXTRA_FLAGS)
+_nbases = st.sampled_from([0, 1, 1, 1, 2])
 
 
 @st.composite
 def _value(draw, allow_factory: bool = True):
-    k = draw(st.integers(0, 5))
+    k = draw(_i05)
     if k <= 1:
         return None
     if k == 2:
-        return {"p": draw(st.integers(0, len(PLAIN_DEFAULTS) - 1))}
-    return {
-        "d": draw(st.sampled_from([None, "v", "f"] if allow_factory else [None, "v"])),
-        "init": draw(_tri),
-        "kw": draw(_tri),
-        "x": draw(st.integers(0, 1)),
-    }
+        return {"p": draw(_plain)}
+    return {"d": draw(_dkind if allow_factory else _dkind_nofactory), "init": draw(_tri), "kw": draw(_tri), "x": draw(_i01)}
+
+
+_value_any = _value()
+_value_nofactory = _value(allow_factory=False)
 
 
 @st.composite
 def _body(draw, decorated: bool):
-    names = draw(st.lists(st.sampled_from(NAME_POOL), unique=True, min_size=0, max_size=4))
+    names = draw(_names)
     items: list[dict] = []
     for n in names:
         # annotated fields dominate; the other member forms share the same small name pool so that overrides happen
-        t = draw(st.sampled_from(["f", "f", "f", "f", "f", "iv", "cv", "u", "prop", "meth"]))
+        t = draw(_item_t)
         if t == "f":
-            items.append({"t": "f", "n": n, "ty": draw(st.integers(0, len(TYPES) - 1)), "v": draw(_value())})
+            items.append({"t": "f", "n": n, "ty": draw(_types), "v": draw(_value_any)})
         elif t == "iv":
-            items.append({"t": "iv", "n": n, "v": draw(_value(allow_factory=False))})
+            items.append({"t": "iv", "n": n, "v": draw(_value_nofactory)})
         elif t == "cv":
-            items.append({"t": "cv", "n": n, "bare": draw(st.integers(0, 1)), "v": draw(st.integers(0, 1))})
+            items.append({"t": "cv", "n": n, "bare": draw(_i01), "v": draw(_i01)})
         else:
             items.append({"t": t, "n": n})
-    if items and draw(st.integers(0, 3)) == 0:
+    if items and draw(_i03) == 0:
         items.insert(draw(st.integers(0, len(items))), {"t": "kw"})
-    if draw(st.integers(0, 5 if decorated else 3)) == 0:
-        items.insert(draw(st.integers(0, len(items))), {"t": "init", "sig": draw(st.integers(0, len(INIT_SIGS) - 1))})
+    if draw(_i09 if decorated else _i04) == 0:
+        items.insert(draw(st.integers(0, len(items))), {"t": "init", "sig": draw(_sigs)})
     return items
+
+
+_body_decorated = _body(True)
+_body_plain = _body(False)
 
 
 @st.composite
 def _deco(draw):
-    if draw(st.integers(0, 3)) == 0:
+    if draw(_i03) == 0:
         return None
-    call = draw(st.integers(0, 1))
-    if not call:
+    if not draw(_i01):
         return {"call": 0, "init": None, "kw_only": None, "extra": None}
-    return {"call": 1, "init": draw(st.sampled_from([None, None, None, 1, 0])), "kw_only": draw(_tri), "extra": draw(st.sampled_from(EXTRA_FLAGS))}
+    return {"call": 1, "init": draw(_deco_init), "kw_only": draw(_tri), "extra": draw(_extra)}
+
+
+_deco_any = _deco()
 
 
 @st.composite
@@ -100,16 +121,16 @@ def cases(draw, max_classes: int = 4, avoid_inherited_value: bool = False):
         cands = [j for j in range(i) if depth[j] < MAX_DEPTH]
         bases: list[int] = []
         if cands:
-            k = draw(st.sampled_from([0, 1, 1, 1, 2]))
+            k = draw(_nbases)
             bases = sorted(draw(st.lists(st.sampled_from(cands), unique=True, min_size=min(k, len(cands)), max_size=min(k, len(cands)))), reverse=True)
         depth.append(1 + max((depth[b] for b in bases), default=0))
-        deco = draw(_deco())
-        classes.append({"bases": bases, "deco": deco, "body": draw(_body(deco is not None))})
+        deco = draw(_deco_any)
+        classes.append({"bases": bases, "deco": deco, "body": draw(_body_decorated if deco is not None else _body_plain)})
     case = {
         "kind": "dc",
-        "future": draw(st.integers(0, 1)),
-        "imp": draw(st.integers(0, len(IMPORTS) - 1)),
-        "cv": draw(st.integers(0, 1)),
+        "future": draw(_i01),
+        "imp": draw(_i03),
+        "cv": draw(_i01),
         "classes": classes,
     }
     return normalize(case, avoid_inherited_value)
@@ -287,14 +308,21 @@ def normalize(case: dict, avoid_inherited_value: bool = False) -> dict:
                 item["v"] = {"p": 0} if item["v"]["d"] else None
             body.append(item)
         cls["body"] = body
+    simulate(case, repair=True)
     if avoid_inherited_value:
         # known finding "inherited-class-attribute-default": rename such fields out of the shared name pool
-        hits = inherited_value_fields(case)
-        for i, k in hits:
-            case["classes"][i]["body"][k]["n"] += "_"
-        if hits:
-            case["steered"] = len(hits)
-    simulate(case, repair=True)
+        # (the repair pass may flip defaults, hence the loop; renamed names never collide with the pool)
+        steered = 0
+        for _ in range(4):
+            hits = inherited_value_fields(case)
+            if not hits:
+                break
+            for i, k in hits:
+                case["classes"][i]["body"][k]["n"] += "_"
+            steered += len(hits)
+            simulate(case, repair=True)
+        if steered:
+            case["steered"] = steered
     return case
 
 
